@@ -20,7 +20,15 @@ type C19Case struct {
 	Files   map[string]string `json:"files,omitempty"`
 	Ops     []wire.Op         `json:"ops"`
 	Planted []string          `json:"planted,omitempty"`
+	// DebugP: the observed parser logs (SetDebug(true)); the shadow and the
+	// fresh parsers do not
+	DebugP bool `json:"debug_observed_parser,omitempty"`
 }
+
+// isStateOp: calls that change what a later output depends on (merges, and a
+// change of the process environment between two calls); they are replayed on
+// the shadow parser and on every fresh parser.
+func isStateOp(op string) bool { return isMergeOp(op) || op == "Setenv" }
 
 // genStream draws the merge calls of a history: a base stream, further
 // layers derived from it, optionally a layered file chain.
@@ -232,6 +240,21 @@ func genC19(r *gen.Rand, maxCalls int) *C19Case {
 		}
 		ops = append(ops[:pos], append([]wire.Op{o}, ops[pos:]...)...)
 	}
+	// the process environment changes between two calls
+	pEnv := 0.04
+	for _, pl := range planted {
+		if strings.HasPrefix(pl, "env") {
+			pEnv = 0.5
+		}
+	}
+	if r.Chance(pEnv) {
+		for k := 0; k < r.Range(1, 2); k++ {
+			o := wire.Op{Op: "Setenv", Path: r.Pick("VERIF_A", "VERIF_B", "VERIF_A", "VERIF_UNSET"), Format: r.Pick("changed", "", "7", "va2")}
+			pos := r.Range(1, len(ops))
+			ops = append(ops[:pos], append([]wire.Op{o}, ops[pos:]...)...)
+		}
+	}
+	c.DebugP = r.Chance(0.08)
 	c.Ops = ops
 	return c
 }
@@ -289,7 +312,7 @@ func c19Request(c *C19Case, run int64, cwd string) (*wire.Request, []int) {
 		o.Snap = true
 		p.Ops = append(p.Ops, o)
 		freshOf = append(freshOf, -1)
-		if isMergeOp(op.Op) {
+		if isStateOp(op.Op) {
 			m := op
 			m.Snap = true
 			s.Ops = append(s.Ops, m)
@@ -307,6 +330,7 @@ func c19Request(c *C19Case, run int64, cwd string) (*wire.Request, []int) {
 			fresh = append(fresh, f)
 		}
 	}
+	p.Debug = c.DebugP
 	req.Tasks = append([]wire.TaskSpec{p, s}, fresh...)
 	return req, freshOf
 }
@@ -331,7 +355,7 @@ func judgeC19(c *C19Case, tasks []taskOutcome, freshOf []int) c19Verdict {
 	freshLen := make([]int, len(c.Ops))
 	nm := 0
 	for i, op := range c.Ops {
-		if isMergeOp(op.Op) {
+		if isStateOp(op.Op) {
 			nm++
 		}
 		freshLen[i] = nm + 1
@@ -340,7 +364,7 @@ func judgeC19(c *C19Case, tasks []taskOutcome, freshOf []int) c19Verdict {
 	for i, op := range c.Ops {
 		po := P.outcomeOf(i)
 		v.Outcomes = append(v.Outcomes, op.Op+":"+po)
-		if isMergeOp(op.Op) {
+		if isStateOp(op.Op) {
 			sIdx++
 			so := S.outcomeOf(sIdx)
 			if po != so {
